@@ -3,6 +3,7 @@ package verifsim
 import (
 	"fmt"
 	"sort"
+	"strings"
 )
 
 // ---- C13: timeouts ----
@@ -148,7 +149,12 @@ func GenCancelWorld(ch *Choices, thorough bool) *IntegWorld {
 		cs := &CtxSpec{Name: fmt.Sprintf("c%d", i), NUp: ch.Choose(3, "nup"), NDown: ch.Choose(3, "ndown"), NBefore: ch.Choose(2, "ncb"), NAfter: ch.Choose(2, "nca")}
 		w.Contexts = append(w.Contexts, cs)
 		for k := 0; k < cs.NUp; k++ {
-			w.Plans[execID("ctx:"+cs.Name, "up", k, "")] = &ExecPlan{DurMS: ch.Choose(80, "up-dur")}
+			pl := &ExecPlan{DurMS: ch.Choose(80, "up-dur")}
+			if ch.Bool(1, 8, "up-fails") {
+				// the tasks of this context fail before they run anything; a later Cancel must still return
+				pl.Exit = genExit(ch)
+			}
+			w.Plans[execID("ctx:"+cs.Name, "up", k, "")] = pl
 		}
 	}
 	for _, nm := range names {
@@ -360,6 +366,11 @@ func runFaultJob(c *Ctl, job *Job, idx int, res *RunResult) {
 		// a task shared by several stages, with per-stage results of its condition, hooks and commands
 		w = GenOverrideWorld(c.Ch, thorough)
 		t := w.Tasks[0]
+		if strings.Contains(t.Dir, "{{") {
+			// (taskctl renders a task's condition with the runner's variables only: a dir that is a
+			// template over a task variable cannot be combined with a condition)
+			t.Dir = "/vs/taskdir"
+		}
 		t.Cond = c.Ch.Bool(2, 3, "cond")
 		t.NBefore = c.Ch.Choose(2, "nbefore")
 		t.NAfter = c.Ch.Choose(2, "nafter")
@@ -411,15 +422,24 @@ func runFaultJob(c *Ctl, job *Job, idx int, res *RunResult) {
 			c.Count("c04i_wide_worlds")
 		} else if idx%2 == 0 {
 			w = GenOverrideWorld(c.Ch, thorough)
-			w.Contexts = nil
-			for _, t := range w.Tasks {
-				t.Context = ""
-			}
+			// (the stages share one task, and with it - in a third of the worlds - one execution
+			// context with before / after hooks and no up commands: sharing a context must not
+			// serialise the stages either)
 		} else {
 			gen := IntegGen{MaxTasks: 3, MaxCmd: 2, MaxVar: 2, MaxHook: 1, CondProb: 10, AllowProb: 30, FailProb: 15, HookFailPct: 10,
 				PipelinePct: 100, DurMax: 80, Names: "simple",
 				StageGen: SchedGenParams{MaxStages: 5, NestProb: 0, AllowProb: 30, CondProb: 0, MaxDepth: 0, NoTrueCondWithDeps: true}}
 			w = GenTaskWorld(c.Ch, gen)
+			if c.Ch.Bool(1, 2, "shared-context") {
+				// tasks of different stages in one context with before / after hooks (no up
+				// commands: waiting for another task's `up` is legitimate)
+				w.Contexts = []*CtxSpec{{Name: "cx", NBefore: c.Ch.Choose(2, "ncb"), NAfter: c.Ch.Choose(2, "nca"), NDown: c.Ch.Choose(2, "ndown")}}
+				for _, t := range w.Tasks {
+					if c.Ch.Bool(2, 3, "in-context") {
+						t.Context = "cx"
+					}
+				}
+			}
 		}
 		// every command first prints something (half of the time without finishing the line) and
 		// keeps running: what one task leaves on the terminal must not hold the others back
